@@ -215,6 +215,8 @@ func (s *setupWorker) setup(ctx context.Context, m transport.Metadata) error {
 
 func (s *connectionWorker) serve(ctx context.Context, session *sessions.Session) {
 	sessionCtx, cancel := context.WithCancel(ctx)
+	// replace the CONNECT deadline by the session's keep-alive allowance right away
+	session.ExtendDeadline()
 	for s.processSession(sessionCtx, session) {
 		session.ExtendDeadline()
 	}
